@@ -781,6 +781,14 @@ impl CoreInner {
 			let filename = entry.file_name();
 			let filename_str = filename.to_string_lossy();
 
+			// A table that was still being built when the process died
+			if filename_str.ends_with(".sst.tmp") {
+				if let Err(e) = std::fs::remove_file(entry.path()) {
+					log::warn!("Failed to remove unfinished SST file {}: {}", filename_str, e);
+				}
+				continue;
+			}
+
 			// Parse table ID from filename (format: {id:020}.sst)
 			if filename_str.ends_with(".sst") && filename_str.len() == 24 {
 				if let Ok(table_id) = filename_str[..20].parse::<u64>() {
